@@ -107,6 +107,11 @@ class C06(Harness):
         base_ns = {'x': param.Parameter(default=0), 'y': param.Parameter(default=0), 'n': param.Number(default=1, bounds=(0, 10))}
         if shape != 'function':
             base_ns.update(ns_for(0))
+
+            # a second dependent method next to m, never overridden: it depends on y and on n:bounds and is counted on its own
+            def m2(self):
+                log.append(('m2', 0, id(self)))
+            base_ns['m2'] = param.depends('y', 'n:bounds', watch=True)(m2)
         Base = type('Base', (param.Parameterized,), base_ns)
         if shape in ('single', 'function'):
             return Base, [Base]
@@ -337,6 +342,13 @@ class C06(Harness):
                             double.append(V('call-count', 'one batch changing a value dependency and a slot dependency of m invoked it twice (program %r); '
                                             'm depends on %s' % (prog, sorted(deps)), op=op[0], got=2, expected=1, kinds='value+slot in one batch'))
                         continue
+                    calls2 = [e for e in log if e[0] == 'm2']
+                    exp2 = 1 if (cfg['shape'] != 'function' and (ch & {('y', 'value'), ('n', 'bounds')})) else 0
+                    if len(calls2) != exp2:
+                        vs.append(V('call-count', 'after %r (program %r, ctor %r): the second method m2 (depends on y, n:bounds) was invoked %d times, expected %d; changed %s' % (
+                            op, prog, ctor_kw, len(calls2), exp2, sorted(ch)), op=op[0], got=len(calls2), expected=exp2, method='m2', **key))
+                        bad = True
+                        break
                     if len(calls) != exp:
                         vs.append(V('call-count', 'after %r (program %r, ctor %r): m invoked %d times, expected %d; effective m declared at level %s depends on %s, '
                                     'changed %s' % (op, prog, ctor_kw, len(calls), exp, lvl, sorted(deps), sorted(ch)),
